@@ -682,7 +682,17 @@ class RealSolver(Family):
                 if all(e == 1 for e in s):
                     s[0] = 3
                 plan.append((s, "integer", d))
-        for s, kind, dname in plan:
+        # magnitudes (added after seed C14u): the same planted / integer arrays multiplied by 1e-9 ... 1e9 - every
+        # comparison below is relative to the leading eigenvalue, so a cut-off or tolerance that is absolute in the
+        # data (an entry of the Gram matrix "below machine epsilon", a norm "close to zero") is a failing input
+        scaled = []
+        for s in [[4, 3, 2], [5, 4], [3, 1, 4], [6, 4, 5]] + ([gen_shape(rng, tier) for _ in range(6)] if tier == "thorough" else []):
+            if all(e == 1 for e in s):
+                s[0] = 3
+            for sc in ([1e-9, 1e-6, 1e6, 1e9] if tier == "quick" else [1e-12, 1e-9, 2e-8, 1e-6, 1e-3, 1e3, 1e6, 1e9, 1e12]):
+                scaled.append((s, rng.choice(["planted", "integer"]), None, sc))
+        plan = [p + (None,) for p in plan] + scaled
+        for s, kind, dname, sc in plan:
             seed = rng.getrandbits(32)
             noise = rng.choice([0.0, 1e-2, 0.3])
             stored = rng.choice(["sorted", "reversed", "shuffled"])
@@ -697,6 +707,8 @@ class RealSolver(Family):
                              "noise": noise, "stored": stored}
                         if dname:
                             c["dtype"] = dname
+                        if sc is not None:
+                            c["scale"] = sc
                         out.append(c)
         return out
 
@@ -716,13 +728,15 @@ class RealSolver(Family):
             if not core.any():
                 core.flat[0] = 1.0
             facs = [np.eye(e) for e in s]
+        if c.get("scale") is not None:
+            core = core * float(c["scale"])
         return holders(core, facs, c["stored"], rng, c.get("dtype"))
 
     def evaluate(self, cases):
         out = []
         cache = {}
         for c in cases:
-            key = (tuple(c["shape"]), c["kind"], c["seed"], c["noise"], c["stored"], c.get("dtype"))
+            key = (tuple(c["shape"]), c["kind"], c["seed"], c["noise"], c["stored"], c.get("dtype"), c.get("scale"))
             if key not in cache:
                 cache.clear()
                 cache[key] = self.build(c)
@@ -734,13 +748,14 @@ class RealSolver(Family):
             ev, evec = np.linalg.eigh(G)
             order = np.argsort(-ev)
             ev, evec = ev[order], evec[:, order]
-            scale = max(1.0, abs(ev[0]))
+            # relative to the leading eigenvalue (no absolute floor: the property is homogeneous in the data)
+            scale = abs(ev[0]) if (c.get("scale") is not None and abs(ev[0]) > 0) else max(1.0, abs(ev[0]))
             lead = ev[: min(r + 1, m)]
             gaps = (lead[:-1] - lead[1:]) / scale if len(lead) > 1 else np.array([1.0])
             separated = bool(np.all(gaps > 1e-6)) and ev[0] > 0
             tags = [c["kind"], f"N{len(c['shape'])}", f"path-{path}", "flipsign" if fs else "noflip",
                     "separated" if separated else "not-separated", "singleton-mode" if 1 in c["shape"] else "no-singleton",
-                    "dtype-" + (c.get("dtype") or "float64")]
+                    "dtype-" + (c.get("dtype") or "float64"), "scale-%g" % c.get("scale", 1.0)]
             if not separated:
                 out.append(Verdict("ok", "", None, None, None, tags, False))
                 continue
